@@ -402,6 +402,16 @@ class Engine:
             raise PathEnd()
         return False
 
+    def holds(self, cond):
+        """Is cond valid under the path condition?  Nothing is recorded."""
+        if not getattr(type(cond), '_is_sym', False):
+            return bool(cond)
+        self.stats.validity_queries += 1
+        r = self._check(M.op1('not', cond.e))
+        if r == z3.unknown:
+            raise HarnessError('solver returned unknown on validity query (holds)')
+        return r == z3.unsat
+
     def _violation(self, name, sig, info, model):
         key = (name,) + tuple(sig or ())
         rec = self.violations.get(key)
